@@ -8,10 +8,36 @@ from ..xlate import Interp, Obj, ListV, DictV, Raised, RankOrder
 from .common import same, show
 
 COV = 'pmutt.mixture.cov.PiecewiseCovEffect'
+# positions of breakpoints and coverages are written as integer codes 0, 5, 10, ... (also in labels and keys); the
+# ordering oracle is told code/SCALE, so that every breakpoint and coverage of an instance lies in [0, 1] (the domain
+# of the property) on the right side of the constants 0 and 1 the code under analysis may compare with
+SCALE = 40
+
+
+def _rank(code):
+    return Fr(code) / SCALE
+
+
+def _subst(v, atom, by):
+    """``v`` with the symbol ``atom`` replaced by ``by`` (None when it does not occur linearly in the numerator)"""
+    if not isinstance(v, Rat):
+        return None
+    if atom not in v.atoms():
+        return v
+    sp = v.split_linear(atom)
+    if sp is None:
+        return None
+    return sp[0] * by + sp[1]
+
+
+def _method(repo, ci, name):
+    """(module, function node) of the method wherever the class or one of its bases defines it"""
+    owner, fn = repo.find_method(ci, name)
+    return owner.module, fn
 
 
 class World:
-    """one symbolic model instance + the reference list of (breakpoint, slope) pairs kept by the checker"""
+    """one symbolic model instance + the reference list of (breakpoint, slope, position code) kept by the checker"""
 
     def __init__(self, repo, n_init):
         self.ranks = {}
@@ -30,12 +56,13 @@ class World:
         self.init_result = r
 
     def new_bp(self, name, rank):
-        self.ranks[name] = Fr(rank)
+        self.ranks[name] = _rank(rank)
         return self.I.D.sym(name)
 
     def insert(self, rank):
         self.counter += 1
-        x = self.new_bp('x%d' % self.counter, rank)
+        # an insertion equal to the first breakpoint is the number 0 itself (the first breakpoint of every model)
+        x = self.new_bp('x%d' % self.counter, rank) if rank != 0 else C(0)
         s = self.I.D.sym('k%d' % self.counter)
         r = self.I.call_method(self.obj, 'insert', [], {'interval': x, 'slope': s})
         # reference: sorted insertion, after any equal breakpoint
@@ -44,7 +71,7 @@ class World:
         return r
 
     def probe(self):
-        self.ranks['xq'] = Fr(12)
+        self.ranks['xq'] = _rank(12)
         D = self.I.D
         return self.I.call_method(self.obj, 'get_UoRT', [], {'x': D.sym('xq'), 'T': D.sym('T')})
 
@@ -83,7 +110,7 @@ def two_models(run, repo, ci):
         return [list(v.items) if isinstance(v, ListV) else None for v in got]
 
     def value(o, rank):
-        w.ranks['xq'] = Fr(rank)
+        w.ranks['xq'] = _rank(rank)
         return I.call_method(o, 'get_UoRT', [], {'x': D.sym('xq'), 'T': D.sym('T')})
 
     a, b = build('a'), build('b')
@@ -96,8 +123,9 @@ def two_models(run, repo, ci):
     before = [value(b, r) for r in (3, 7)]
     # reference for the model that is edited: what it lists after construction, plus the inserted pair
     rk = [I.order.rank(x) if isinstance(x, Rat) else None for x in lists(a)[0]]
+    rk = [x * SCALE if x is not None else None for x in rk]         # position codes
     pairs_a = list(zip(lists(a)[0], lists(a)[1], rk))
-    w.ranks['xa'] = Fr(5)
+    w.ranks['xa'] = _rank(5)
     xa, ka = D.sym('xa'), D.sym('ka')
     r = I.call_method(a, 'insert', [], {'interval': xa, 'slope': ka})
     if isinstance(r, Raised):
@@ -123,10 +151,10 @@ def two_models(run, repo, ci):
         pos = len([x for x in rk if x <= 5])
         pairs_a.insert(pos, (xa, ka, Fr(5)))
         invariants(run, View(w, a, pairs_a), 'edited model next to another, ' + key0,
-                   (ci.module, ci.methods['insert']) if 'insert' in ci.methods else (owner.module, fn))
+                   _method(repo, ci, 'insert'))
 
 
-def invariants(run, w, label, owner_fn):
+def invariants(run, w, label, owner_fn, on_breakpoints=True):
     I = w.I
     D = I.D
     o = w.obj
@@ -162,13 +190,14 @@ def invariants(run, w, label, owner_fn):
     positions = []
     rk = [p[2] for p in w.pairs]
     for k, r in enumerate(rk):
-        positions.append((r, 'on breakpoint %d' % k))
+        if on_breakpoints:
+            positions.append((r, 'on breakpoint %d' % k))
         nxt = rk[k + 1] if k + 1 < len(rk) else r + 10
         if nxt > r:
             positions.append(((r + nxt) / 2, 'inside piece %d' % k))
     positions.append((rk[-1] + 7, 'beyond the last breakpoint'))
     for r, txt in positions:
-        w.ranks['xq'] = Fr(r)
+        w.ranks['xq'] = _rank(r)
         x = D.sym('xq')
         got = I.call_method(o, 'get_UoRT', [], {'x': x, 'T': T})
         k = max(i for i, rr in enumerate(rk) if rr <= r)
@@ -179,6 +208,15 @@ def invariants(run, w, label, owner_fn):
             k2 = min(i for i, rr in enumerate(rk) if rr == r)
             alt = [(sl.items[j] * x + ic.items[j]) / (Rk * T) for j in range(max(0, k2 - 1), k + 1)]
             good = any(same(got, a) for a in alt)
+            if not good:
+                # ... and the coverage IS the breakpoint (the oracle answers xq == breakpoint with True, so the code
+                # may use either): the values are compared with the breakpoint written for the coverage - the
+                # number 0 for the first one
+                for j in range(k2, k + 1):
+                    g_, w_ = _subst(got, 'xq', w.pairs[j][0]), _subst(want, 'xq', w.pairs[j][0])
+                    if g_ is not None and w_ is not None and same(g_, w_):
+                        good = True
+                        break
         # the right slope with another offset: the pieces do not join (continuity); anything else: wrong piece
         offset_only = not good and isinstance(got, Rat) and D.d(got - want, 'xq').iszero()
         run.check(good, 'REF.continuity' if offset_only else 'REF.lookup', 'PiecewiseCovEffect.get_UoRT',
@@ -217,7 +255,7 @@ def reloaded(run, w, key):
         ic = C(0)
         for k in range(1, len(w.pairs)):
             ic = ic + (w.pairs[k - 1][1] - w.pairs[k][1]) * w.pairs[k][0]
-        w.ranks['xq'] = w.pairs[-1][2] + 7
+        w.ranks['xq'] = _rank(w.pairs[-1][2] + 7)
         x, T = D.sym('xq'), D.sym('T')
         got = I.call_method(o2, 'get_UoRT', [], {'x': x, 'T': T})
         want = (w.pairs[-1][1] * x + ic) / (D.sym('kb') * D.sym('Na') * D.sym('U<kcal>') * T)
@@ -226,6 +264,60 @@ def reloaded(run, w, key):
                   'of the listed pieces is %s' % (show(got, 100), show(want, 100))
     run.check(why is None, 'TABLE.roundtrip', 'PiecewiseCovEffect.from_dict', 'reload ' + key,
               'serialising and reloading changes the model: %s' % why, owner.module, fn)
+
+
+def edges(run, repo, ins_owner, pop_owner):
+    """indices and positions the operation alphabet of the sequences does not contain: removal by every index a
+    model of 2-5 breakpoints has (counted from either end) and by indices it does not have, and an insertion at
+    coverage 1, the upper end of the domain"""
+    thorough = run.tier == 'thorough'
+    for n_init, n_ins in ((1, 0), (2, 0), (3, 0), (3, 1), (3, 2)) if thorough else ((2, 0), (3, 1)):
+        n = n_init + n_ins
+        for i in sorted(set(range(-n - 2, n + 3)) | {7, -7}) if thorough else (-n - 1, -n + 1, -2, n - 1, n, n + 1, 7):
+            if i == 0 or i == -n:
+                continue                # the first breakpoint: decided by the sequences / nothing is claimed
+            if i in (1, 2, -1) and (n_ins == 0 or not thorough):
+                continue                # in the alphabet of the sequences
+            w = World(repo, n_init)
+            if isinstance(w.init_result, Raised):
+                return                  # reported by the sequences
+            if any(isinstance(w.insert(r), Raised) for r in (5, 15)[:n_ins]):
+                return
+            w.probe()
+            lists0 = [list(w.obj.attrs[a].items) if isinstance(w.obj.attrs.get(a), ListV) else None
+                      for a in ('intervals', 'slopes')]
+            r = w.pop(i)
+            label = 'pop(%d) on %d breakpoints' % (i, n)
+            if -n < i < n:
+                if isinstance(r, Raised):
+                    run.fail('REF.pop', 'PiecewiseCovEffect.pop', label, 'pop raises %s' % r.exc, *pop_owner)
+                    continue
+                invariants(run, w, 'after pop of an interior/last breakpoint', pop_owner)
+                continue
+            # an index the model does not have: refused, and the model is what it was
+            lists1 = [list(w.obj.attrs[a].items) if isinstance(w.obj.attrs.get(a), ListV) else None
+                      for a in ('intervals', 'slopes')]
+            if not run.check(isinstance(r, Raised) and lists0 == lists1, 'REF.pop', 'PiecewiseCovEffect.pop',
+                             'index out of range',
+                             'pop(%d) on %d breakpoints is accepted or changes the model: breakpoints %s -> %s, '
+                             'slopes %s -> %s (result %s)'
+                             % (i, n, show(ListV(lists0[0] or []), 60), show(ListV(lists1[0] or []), 60),
+                                show(ListV(lists0[1] or []), 60), show(ListV(lists1[1] or []), 60), show(r, 40)),
+                             *pop_owner):
+                continue
+            invariants(run, w, 'after a refused pop', pop_owner, on_breakpoints=False)
+    for n_init in (1, 2, 3) if thorough else (2,):
+        w = World(repo, n_init)
+        if isinstance(w.init_result, Raised):
+            return
+        w.probe()
+        r = w.insert(SCALE)
+        if isinstance(r, Raised):
+            run.fail('REF.insert', 'PiecewiseCovEffect.insert', 'insert at coverage 1', 'insert of a breakpoint at '
+                     'coverage 1 into %d breakpoints raises %s' % (n_init, r.exc), *ins_owner)
+            continue
+        invariants(run, w, 'after insert at coverage 1', ins_owner)
+        reloaded(run, w, 'after insert at coverage 1')
 
 
 def check(run, repo):
@@ -252,80 +344,95 @@ def check(run, repo):
     depth = 3 if run.tier == 'thorough' else 2
     n_seq = 0
     n_enum = 0
-    init_owner = (ci.module, ci.methods['__init__'])
-    ins_owner = (ci.module, ci.methods['insert'])
-    pop_owner = (ci.module, ci.methods['pop'])
+    # the methods may live in a base class (a mix-in): they are looked up the way Python does
+    init_owner = _method(repo, ci, '__init__')
+    ins_owner = _method(repo, ci, 'insert')
+    pop_owner = _method(repo, ci, 'pop')
     for n_init in (1, 2, 3):
-        base_ranks = [10 * k for k in range(n_init)]
-        # operation alphabet: insert at characteristic positions, pop indices
-        ins_pos = sorted(set([5, 15, 25, 10, 20] if n_init > 1 else [5, 15]))
+        # operation alphabet: insert at characteristic positions (0 = equal to the first breakpoint), pop indices
+        # (above two breakpoints, the third position is a new case only for a third insert)
+        ins_pos = [0, 5, 15] if n_init == 1 else [0, 5, 10, 15, 20] if n_init == 2 and depth < 3 else \
+            [0, 5, 10, 15, 20, 25]
         ops = [('insert', r) for r in ins_pos] + [('pop', i) for i in (1, 2, 0, -1)]
         failed = set()
-        for L in range(0, depth + 1):
-            for seq in itertools.product(ops, repeat=L):
-                n_enum += 1
-                if any(seq[:k] in failed for k in range(len(seq))):
-                    continue        # a prefix already violates an invariant: reported there, do not cascade
-                w = World(repo, n_init)
-                label = 'init:%d ops:%s' % (n_init, ' '.join('%s(%s)' % o for o in seq) or '-')
-                if isinstance(w.init_result, Raised):
-                    run.fail('REF.construct', 'PiecewiseCovEffect.__init__', label, 'constructor raises %s'
-                             % w.init_result.exc, *init_owner)
-                    continue
-                valid = True
-                last_owner = init_owner
-                for op, arg in seq:
-                    # the model is evaluated before every edit as well (a coverage sweep between two edits): an
-                    # evaluation must not leave anything behind that survives the next edit. The value itself was
-                    # decided when this prefix was the whole sequence.
+        # every sequence is run twice: evaluated before EVERY edit, and evaluated before the FIRST edit only (two
+        # or more edits with no evaluation in between: whatever an evaluation leaves behind must not survive them
+        # either - e.g. an insert and a pop leave the number of breakpoints as it was)
+        plans = [(L, seq, pattern) for L in range(0, depth + 1) for seq in itertools.product(ops, repeat=L)
+                 for pattern in (('every', 'first') if L >= 2 else ('every',))]
+        for L, seq, pattern in plans:
+            n_enum += 1
+            if any(seq[:k] in failed for k in range(len(seq) + 1)):
+                continue        # a prefix already violates an invariant: reported there, do not cascade
+            if pattern == 'first' and run.tier != 'thorough' and not _all_edit(seq, n_init):
+                continue        # quick tier: only sequences in which every operation changes the model
+            w = World(repo, n_init)
+            label = 'init:%d ops:%s%s' % (n_init, ' '.join('%s(%s)' % o for o in seq) or '-',
+                                          ' (evaluated before the first edit only)' if pattern == 'first' else '')
+            if isinstance(w.init_result, Raised):
+                run.fail('REF.construct', 'PiecewiseCovEffect.__init__', label, 'constructor raises %s'
+                         % w.init_result.exc, *init_owner)
+                continue
+            valid = True
+            last_owner = init_owner
+            for n_op, (op, arg) in enumerate(seq):
+                # the model is evaluated before every edit as well (a coverage sweep between two edits): an
+                # evaluation must not leave anything behind that survives the next edit. The value itself was
+                # decided when this prefix was the whole sequence.
+                if pattern == 'every' or n_op == 0:
                     w.probe()
-                    if op == 'insert':
-                        r = w.insert(arg)
-                        last_owner = ins_owner
-                        if isinstance(r, Raised):
-                            run.fail('REF.insert', 'PiecewiseCovEffect.insert', label, 'insert raises %s' % r.exc,
-                                     *ins_owner)
+                if op == 'insert':
+                    r = w.insert(arg)
+                    last_owner = ins_owner
+                    if isinstance(r, Raised):
+                        run.fail('REF.insert', 'PiecewiseCovEffect.insert', label, 'insert raises %s' % r.exc,
+                                 *ins_owner)
+                        valid = False
+                        break
+                else:
+                    n_before = len(w.pairs)
+                    idx_ok = arg != 0 and -n_before <= arg < n_before and not (arg < 0 and n_before + arg == 0)
+                    if arg < 0 and n_before + arg == 0:
+                        # the first breakpoint addressed from the end: the documentation refuses index 0 only,
+                        # nothing is claimed about this spelling
+                        valid = False
+                        break
+                    r = w.pop(arg)
+                    last_owner = pop_owner
+                    if not idx_ok:
+                        # popping a non-existent index (or the first breakpoint) must be refused and leave the
+                        # model untouched
+                        if not isinstance(r, Raised):
+                            run.fail('REF.pop', 'PiecewiseCovEffect.pop', label,
+                                     'pop(%d) on %d breakpoints is accepted' % (arg, n_before), *pop_owner)
                             valid = False
                             break
-                    else:
-                        n_before = len(w.pairs)
-                        idx_ok = arg != 0 and -n_before <= arg < n_before and not (arg < 0 and n_before + arg == 0)
-                        if arg < 0 and n_before + arg == 0:
-                            # the first breakpoint addressed from the end: the documentation refuses index 0 only,
-                            # nothing is claimed about this spelling
-                            valid = False
-                            break
-                        r = w.pop(arg)
-                        last_owner = pop_owner
-                        if not idx_ok:
-                            # popping a non-existent index (or the first breakpoint) must be refused and leave the
-                            # model untouched
-                            if not isinstance(r, Raised):
-                                run.fail('REF.pop', 'PiecewiseCovEffect.pop', label,
-                                         'pop(%d) on %d breakpoints is accepted' % (arg, n_before), *pop_owner)
-                                valid = False
-                                break
-                            continue        # refused: the sequence goes on with the model as it was
-                        if isinstance(r, Raised):
-                            run.fail('REF.pop', 'PiecewiseCovEffect.pop', label, 'pop raises %s' % r.exc, *pop_owner)
-                            valid = False
-                            break
-                if not valid:
-                    failed.add(seq)
-                    continue
-                n_seq += 1
-                # one finding per operation kind: key on the last operation, not on the whole sequence
-                key = 'after %s' % ('%s %s' % (seq[-1][0], _where(seq[-1], w)) if seq else 'construction')
-                before = len(run.findings)
-                nfail0 = run.obligations - run.discharged
-                invariants(run, w, key, last_owner)
-                if run.obligations - run.discharged > nfail0:
-                    failed.add(seq)
-                elif len(seq) <= 2:
-                    # the model reached by this sequence, serialised and reloaded, is the same function
-                    reloaded(run, w, key)
+                        continue        # refused: the sequence goes on with the model as it was
+                    if isinstance(r, Raised):
+                        run.fail('REF.pop', 'PiecewiseCovEffect.pop', label, 'pop raises %s' % r.exc, *pop_owner)
+                        valid = False
+                        break
+            if not valid:
+                failed.add(seq)
+                continue
+            n_seq += 1
+            # one finding per operation kind: key on the last operation, not on the whole sequence
+            key = 'after %s' % ('%s %s' % (seq[-1][0], _where(seq[-1], w)) if seq else 'construction')
+            if pattern == 'first':
+                key += ', no evaluation between the edits'
+            before = len(run.findings)
+            nfail0 = run.obligations - run.discharged
+            # (which side of a breakpoint belongs to which piece was decided with an evaluation before every edit:
+            # the quick tier evaluates the second run inside the pieces and beyond them only)
+            invariants(run, w, key, last_owner, on_breakpoints=pattern == 'every' or run.tier == 'thorough')
+            if run.obligations - run.discharged > nfail0:
+                failed.add(seq)
+            elif len(seq) <= 2 and pattern == 'every':
+                # the model reached by this sequence, serialised and reloaded, is the same function
+                reloaded(run, w, key)
     run.floor('operation sequences enumerated', n_enum, 60)
     run.extra['sequences'] = n_seq
+    edges(run, repo, ins_owner, pop_owner)
     two_models(run, repo, ci)
     # entropy and heat capacities vanish
     I = Interp(repo)
@@ -338,7 +445,7 @@ def check(run, repo):
     # with no entropy, every energy form (H, F, G) is the same excess energy as U at the temperature asked for, and
     # is independent of temperature in energy units
     w = World(repo, 2)
-    w.ranks['xq'] = Fr(5)
+    w.ranks['xq'] = _rank(5)
     Dw = w.I.D
     xq, Tq = Dw.sym('xq'), Dw.sym('Tq')
     u = w.I.call_method(w.obj, 'get_UoRT', [], {'x': xq, 'T': Tq})
@@ -358,7 +465,7 @@ def check(run, repo):
     # ... and still after an edit: nothing an energy form computed before the edit may survive it
     r_ins = w.insert(15)
     if not isinstance(r_ins, Raised):
-        w.ranks['xq'] = Fr(17)
+        w.ranks['xq'] = _rank(17)
         u = w.I.call_method(w.obj, 'get_UoRT', [], {'x': xq, 'T': Tq})
         for q in ('get_HoRT', 'get_FoRT', 'get_GoRT'):
             if repo.find_method(ci, q, missing_ok=True) is None:
@@ -382,7 +489,7 @@ def check(run, repo):
                                          for k in ('intervals', 'slopes', 'name_i', 'name_j'))
         if ok:
             # and it evaluates like the original (whatever private state the reload has to rebuild)
-            w.ranks['xq'] = Fr(17)
+            w.ranks['xq'] = _rank(17)
             xq2, Tq2 = w.I.D.sym('xq'), w.I.D.sym('Tq')
             ok = same(w.I.call_method(o2, 'get_UoRT', [], {'x': xq2, 'T': Tq2}),
                       w.I.call_method(w.obj, 'get_UoRT', [], {'x': xq2, 'T': Tq2}))
@@ -395,7 +502,7 @@ def check(run, repo):
             xq2, Tq2 = w.I.D.sym('xq'), w.I.D.sym('Tq')
             before = w.I.call_method(w.obj, 'get_UoRT', [], {'x': xq2, 'T': Tq2})
             n_before = len(w.obj.attrs['intervals'].items)
-            w.ranks['xnew'] = Fr(12)
+            w.ranks['xnew'] = _rank(12)
             w.I.call_method(o2, 'insert', [], {'interval': w.I.D.sym('xnew'), 'slope': w.I.D.sym('knew')})
             after = w.I.call_method(w.obj, 'get_UoRT', [], {'x': xq2, 'T': Tq2})
             o_t, f_t = repo.find_method(ci, 'to_dict')
@@ -413,7 +520,7 @@ def check(run, repo):
             d2 = w.I.call_method(w.obj, 'to_dict', [], {})
             saved = [len(v.items) for v in d2.d.values() if isinstance(v, ListV)] if isinstance(d2, DictV) else []
             w.I.call_method(w.obj, 'insert', [], {'interval': w.I.D.sym('xnew2'), 'slope': w.I.D.sym('knew2')}) \
-                if w.ranks.setdefault('xnew2', Fr(7)) else None
+                if w.ranks.setdefault('xnew2', _rank(7)) else None
             now = [len(v.items) for v in d2.d.values() if isinstance(v, ListV)] if isinstance(d2, DictV) else []
             run.check(saved == now, 'EFFECT.shared-state', 'PiecewiseCovEffect.to_dict', 'edit after saving',
                       'a dictionary taken with to_dict() changes when the model is edited afterwards (list lengths %s '
@@ -421,6 +528,18 @@ def check(run, repo):
     else:
         run.fail('TABLE.roundtrip', 'PiecewiseCovEffect.to_dict', 'to_dict', 'to_dict does not return a dict',
                  owner.module, fn)
+
+
+def _all_edit(seq, n):
+    """every operation of the sequence changes a model that starts with n breakpoints (no refused pop)"""
+    for op, arg in seq:
+        if op == 'insert':
+            n += 1
+        elif arg != 0 and -n < arg < n:
+            n -= 1
+        else:
+            return False
+    return True
 
 
 def _where(op, w):
@@ -464,5 +583,57 @@ MUTANTS = [
     {'name': 'enthalpy remembered across an insert', 'expect': ('TWIN.energy-forms', 'get_HoRT'),
      'edits': [(C_, '        return self.get_UoRT(x=x, T=T)\n', "        if getattr(self, '_H', None) is None:\n"
                 '            self._H = self.get_UoRT(x=x, T=T) * T\n        return self._H / T\n')]},
+    # white-box review, round 2: two edits with no evaluation between them, an insert equal to the first breakpoint
+    # and at coverage 1, indices the model does not have; one-shot zip objects, list.index by value, numpy booleans
+    {'name': 'thresholds cached, rebuilt when the number of breakpoints changed', 'expect': ('REF.lookup', 'get_UoRT'),
+     'edits': [(C_, '        self._set_intercepts()\n        self.name = name', '        self._set_intercepts()\n        self._thresholds = None\n        self.name = name'),
+               (C_, '        i = np.argmax(x < np.array(self.intervals)) - 1',
+                '        if self._thresholds is None or len(self._thresholds) != len(self.intervals):\n'
+                '            self._thresholds = np.array(self.intervals)\n        i = np.argmax(x < self._thresholds) - 1')]},
+    {'name': 'insert refuses a breakpoint equal to the first one', 'expect': ('REF.insert', 'insert'),
+     'edits': [(C_, '        self.intervals.insert(i, interval)\n', "        if interval <= 0.:\n            raise ValueError("
+                "'New intervals must be positive')\n        self.intervals.insert(i, interval)\n")]},
+    {'name': 'insert refuses a breakpoint at coverage 1', 'expect': ('REF.insert', 'insert'),
+     'edits': [(C_, '        self.intervals.insert(i, interval)\n', "        if interval >= 1.:\n            raise ValueError("
+                "'New intervals must be below 1 ML')\n        self.intervals.insert(i, interval)\n")]},
+    {'name': 'pop wraps indices the model does not have', 'expect': ('REF.pop', 'pop'),
+     'edits': [(C_, "        if i == 0:\n            err_msg = 'First index cannot be removed'",
+                "        i = i % len(self.intervals)\n        if i == 0:\n            err_msg = 'First index cannot be removed'")]},
+    {'name': 'zip object counted with list() and then looped over', 'expect': ('REF.continuity', 'get_UoRT'),
+     'edits': [(C_, '        self._intercepts = []\n        for i, (interval, slope) in enumerate(zip(self.intervals,\n'
+                '                                                  self.slopes)):\n            if i == 0:\n'
+                '                self._intercepts.append(0.)\n            else:\n'
+                '                # Calculate H value at interval\n                prev_intercept = self._intercepts[-1]\n'
+                '                prev_slope = self.slopes[i - 1]\n                H = prev_slope * interval + prev_intercept\n'
+                '                # Calculate intercept of new area of curve\n'
+                '                self._intercepts.append(H - slope * interval)\n',
+                '        pieces = zip(self.intervals, self.slopes)\n        self._intercepts = [0.] * len(list(pieces))\n'
+                '        for i, (interval, slope) in enumerate(pieces):\n            if i == 0:\n                continue\n'
+                '            prev_intercept = self._intercepts[i - 1]\n            prev_slope = self.slopes[i - 1]\n'
+                '            H = prev_slope * interval + prev_intercept\n'
+                '            self._intercepts[i] = H - slope * interval\n')]},
+    {'name': 'piece located with list.index of the breakpoint value', 'expect': ('REF.lookup', 'get_UoRT'),
+     'edits': [(C_, '        i = np.argmax(x < np.array(self.intervals)) - 1',
+                '        lower = [interval for interval in self.intervals if interval <= x][-1]\n'
+                '        i = self.intervals.index(lower)')]},
+    {'name': 'numpy truth value compared with the singleton True', 'expect': ('ORDER.ascending', 'PiecewiseCovEffect'),
+     'edits': [(C_, '        if np.any(larger):', '        if np.any(larger) is True:')]},
 ]
-EQUIV = []
+EQUIV = [
+    # white-box review, round 2 (behaviour-preserving: must stay silent)
+    {'name': 'shortcut at zero coverage',
+     'edits': [(C_, '        i = np.argmax(x < np.array(self.intervals)) - 1',
+                "        if x == 0.:\n            return 0. / (c.R('kcal/mol/K') * T)\n"
+                '        i = np.argmax(x < np.array(self.intervals)) - 1')]},
+    {'name': 'pop moved into a mix-in base class',
+     'edits': [(C_, 'class PiecewiseCovEffect(_ModelBase):',
+                'class _PiecewiseLinear:\n    def pop(self, i):\n        if i == 0:\n'
+                "            raise ValueError('First index cannot be removed')\n        self.intervals.pop(i)\n"
+                '        self.slopes.pop(i)\n        self._set_intercepts()\n\n\n'
+                'class PiecewiseCovEffect(_PiecewiseLinear, _ModelBase):'),
+               (C_, '    def pop(self, i):\n        """Removes the interval', '    def _pop_here(self, i):\n        """Removes the interval')]},
+    {'name': 'insert refuses breakpoints outside the domain [0, 1]',
+     'edits': [(C_, '        self.intervals.insert(i, interval)\n', "        if interval < 0. or interval > 1.:\n"
+                "            raise ValueError('Intervals are coverages between 0 and 1 ML')\n"
+                '        self.intervals.insert(i, interval)\n')]},
+]
